@@ -37,3 +37,8 @@ def c20(ctx):
 @register("C02")
 def c02(ctx):
     return evalfam.check_c02(ctx)
+
+
+@register("C17")
+def c17(ctx):
+    return evalfam.check_c17(ctx)
